@@ -54,7 +54,8 @@ def san_closure(d, s):
         if fn == "bang":
             return "|mut s: String| { s.push('!'); s }"
         if fn == "tag_a":
-            return "|mut s: String| { s.push('A'); s }"
+            # (an explicit `return`: a closure spliced into the generated function instead of being called would leave it early)
+            return "|mut s: String| { s.push('A'); return s; }"
         if fn == "take2":
             return "|s: String| s.chars().take(2).collect::<String>()"
     if fam == "any" and d.get("ty") in ("Point", "Gen<Point>"):
@@ -299,7 +300,9 @@ def variants(d):
 
 POINT_ITEMS = """#[derive(Debug, Clone, Copy, PartialEq, Eq, PartialOrd, Ord, Hash, Default, serde::Serialize, serde::Deserialize)]
 pub struct Point(pub i32, pub i32);
-impl ::core::fmt::Display for Point { fn fmt(&self, f: &mut ::core::fmt::Formatter<'_>) -> ::core::fmt::Result { f.pad(&format!("{},{}", self.0, self.1)) } }
+// Display hands the caller's formatter options (sign, zero padding, width, precision) to the SECOND component, like a numeric
+// type would: a newtype that renders the inner value first and pads the text afterwards prints something else
+impl ::core::fmt::Display for Point { fn fmt(&self, f: &mut ::core::fmt::Formatter<'_>) -> ::core::fmt::Result { write!(f, "{},", self.0)?; ::core::fmt::Display::fmt(&self.1, f) } }
 impl ::core::str::FromStr for Point { type Err = String; fn from_str(s: &str) -> Result<Self, String> {
     let mut it = s.split(','); let a = it.next().ok_or("x")?.parse::<i32>().map_err(|e| e.to_string())?;
     let b = it.next().ok_or("y")?.parse::<i32>().map_err(|e| e.to_string())?; if it.next().is_some() { return Err("extra".into()); } Ok(Point(a, b)) } }
